@@ -12,7 +12,10 @@ import (
 	"sort"
 	"strconv"
 	"strings"
+	"sync"
 	"time"
+
+	"golang.org/x/tools/go/ssa"
 )
 
 const verifRoot = "/verif"
@@ -162,7 +165,9 @@ func cmdCheck(args []string) int {
 			patterns = append(patterns, p)
 		}
 	}
+	tLoad := time.Now()
 	cx, err := LoadProgram(*repo, patterns, parseOverlay(*ov))
+	loadS := time.Since(tLoad).Seconds()
 	var viols []violation
 	replayDir := filepath.Join(verifRoot, "replays", *prop)
 	os.MkdirAll(replayDir, 0o755)
@@ -182,6 +187,15 @@ func cmdCheck(args []string) int {
 	}
 	var units []*UnitResult
 	var funcNames []string
+	loadHoudiniHints(filepath.Join(verifRoot, "obligations", "houdini_hints.json"))
+	tBuild := time.Now()
+	type buildJob struct {
+		idx int
+		fn  *ssa.Function
+		fc  *FuncContract
+		l   *Lemma
+	}
+	var jobs []buildJob
 	for _, fc := range fcs {
 		fn := cx.lookupFn(fc.PkgPath, fc.Name)
 		if fn == nil {
@@ -194,22 +208,43 @@ func cmdCheck(args []string) int {
 		if fc.Trusted || len(fn.Blocks) == 0 {
 			continue
 		}
-		u, err := cx.buildFuncUnit(fn, fc)
-		ur := &UnitResult{Unit: u, Name: fn.String()}
-		if err != nil {
-			ur.Err = err.Error()
-		}
-		units = append(units, ur)
+		units = append(units, &UnitResult{Name: fn.String()})
+		jobs = append(jobs, buildJob{idx: len(units) - 1, fn: fn, fc: fc})
 		funcNames = append(funcNames, fn.String())
 	}
 	for _, l := range lemmas {
-		u, err := cx.buildLemmaUnit(l)
-		ur := &UnitResult{Unit: u, Name: "lemma " + l.Name}
-		if err != nil {
-			ur.Err = err.Error()
-		}
-		units = append(units, ur)
+		units = append(units, &UnitResult{Name: "lemma " + l.Name})
+		jobs = append(jobs, buildJob{idx: len(units) - 1, l: l})
 	}
+	{
+		var wg sync.WaitGroup
+		ch := make(chan buildJob)
+		for w := 0; w < 8; w++ {
+			wg.Add(1)
+			go func() {
+				defer wg.Done()
+				for j := range ch {
+					var u *Unit
+					var err error
+					if j.l != nil {
+						u, err = cx.buildLemmaUnit(j.l)
+					} else {
+						u, err = cx.buildFuncUnit(j.fn, j.fc)
+					}
+					units[j.idx].Unit = u
+					if err != nil {
+						units[j.idx].Err = err.Error()
+					}
+				}
+			}()
+		}
+		for _, j := range jobs {
+			ch <- j
+		}
+		close(ch)
+		wg.Wait()
+	}
+	buildS := time.Since(tBuild).Seconds()
 	outDir := filepath.Join(verifRoot, "out", *prop)
 	os.RemoveAll(outDir)
 	os.MkdirAll(outDir, 0o755)
@@ -313,9 +348,10 @@ func cmdCheck(args []string) int {
 		}
 	}
 	if *writeClaims {
+		saveHoudiniHints(filepath.Join(verifRoot, "obligations", "houdini_hints.json"))
 		var ids []string
 		for id, r := range produced {
-			if r.Obl.Kind == "safe" || r.Obl.Kind == "frame" || r.Obl.Kind == "cover" || strings.HasSuffix(id, "@finding") || strings.Contains(id, "#") {
+			if r.Obl.Kind == "safe" || r.Obl.Kind == "frame" || r.Obl.Kind == "cover" || strings.HasSuffix(id, "@finding") || strings.Contains(id, "#") || strings.Contains(id, "auto-frame") {
 				continue
 			}
 			ids = append(ids, id)
@@ -364,7 +400,7 @@ func cmdCheck(args []string) int {
 			seen[line] = true
 		}
 	}
-	fmt.Printf("%s %s: %d obligations, %d discharged, %d violations, %d known findings, %.1fs\n", *prop, *tier, nObl, nDis, len(viols), len(findingsOut), wall)
+	fmt.Printf("%s %s: %d obligations, %d discharged, %d violations, %d known findings, %.1fs (load %.1fs, vcgen %.1fs)\n", *prop, *tier, nObl, nDis, len(viols), len(findingsOut), wall, loadS, buildS)
 
 	if !*noEvidence {
 		var assumptions []string
